@@ -390,6 +390,71 @@ def t4(run: Run, prog: Program):
     run.floor("T4 matrix/N pairs", n, 4)
 
 
+SIZE_CHANGING = ("delete", "compress", "take", "extract")
+
+
+def t9(run: Run, prog: Program):
+    """`self.N` is written by two owners in a plot+network class: the plot code
+    (N = size of the recurrence matrix) and the Network adjacency setter (N =
+    size of the adjacency).  When the constructor hands Network.__init__ a
+    *size-changed* copy of the matrix (states with missing values deleted), N no
+    longer is the size of the matrix afterwards; a later method that clears the
+    diagonal of a copy of the matrix with the stride `self.N + 1` then clears
+    the wrong cells."""
+    classes = [c for c in prog.classes.values()
+               if prog.is_subclass(c, PLOT_ROOT) and prog.is_subclass(c, "Network")]
+    n = 0
+    for C in sorted(classes, key=lambda c: c.name):
+        M = _matrix_cell(prog, C)
+        init = C.methods.get("__init__")
+        if init is None or M is None:
+            continue
+        pruned = None
+        for a in ast.walk(init.node):
+            if isinstance(a, ast.Assign) and isinstance(a.targets[0], ast.Name) and \
+                    isinstance(a.value, ast.Call) and isinstance(a.value.func, ast.Attribute) \
+                    and a.value.func.attr in SIZE_CHANGING and a.value.args and \
+                    isinstance(a.value.args[0], ast.Name) and \
+                    a.value.args[0].id == a.targets[0].id:
+                # X = np.delete(X, ...) on the local that reaches Network.__init__ ?
+                for c in ast.walk(init.node):
+                    if isinstance(c, ast.Call) and \
+                            ast.unparse(c.func) == "Network.__init__" and len(c.args) > 1 \
+                            and isinstance(c.args[1], ast.Name) and \
+                            c.args[1].id == a.targets[0].id and c.lineno > a.lineno:
+                        pruned = a
+        for f in sorted(C.methods.values(), key=lambda f: f.name):
+            if f.name == "__init__" or not f.params:
+                continue
+            sn = f.params[0]
+            for st in ast.walk(f.node):
+                if not (isinstance(st, ast.Assign) and isinstance(st.targets[0], ast.Subscript)
+                        and isinstance(st.targets[0].value, ast.Attribute)
+                        and st.targets[0].value.attr == "flat"):
+                    continue
+                sl = st.targets[0].slice
+                if not (isinstance(sl, ast.Slice) and sl.step is not None):
+                    continue
+                uses_N = any(isinstance(x, ast.Attribute) and isinstance(x.value, ast.Name)
+                             and x.value.id == sn and x.attr == "N"
+                             for x in ast.walk(sl.step))
+                if not uses_N:
+                    continue
+                n += 1
+                ok = pruned is None
+                run.oblige("T9", f"{f.qualname}:stride@{st.lineno}", ok, sample={
+                    "where": f"{f.module.relpath}:{st.lineno}"})
+                if not ok:
+                    run.add("T9", f"{f.qualname}/stride-N", f"{f.module.relpath}:{st.lineno}",
+                            f"{f.qualname} clears the diagonal of a copy of `{M}` with the "
+                            f"stride `{ast.unparse(sl.step)}`, but {C.name}.__init__ hands "
+                            f"Network.__init__ a size-changed copy "
+                            f"(`{ast.unparse(pruned)[:60]}`), after which self.N is the "
+                            f"size of the adjacency, not of `{M}`: the wrong cells are "
+                            f"cleared and self-loops remain")
+    run.count("T9", n)
+
+
 def t8(run: Run, cy: CyProgram):
     """Distance kernels compute at the precision of their input: no floating
     local (accumulator, difference) is declared narrower than the embedding
@@ -639,6 +704,8 @@ def t6(run: Run, cy: CyProgram):
 
 
 def check(run: Run, prog: Program, cy: CyProgram, sites=None):
+    run.rule("T9", "a diagonal stride taken from self.N belongs to a matrix whose size "
+             "self.N still denotes")
     run.rule("T8", "distance kernels keep every floating intermediate at the "
              "precision of their input buffers")
     run.rule("T7", "a matrix block sized by a stored length is filled from a plot built "
@@ -672,3 +739,4 @@ def check(run: Run, prog: Program, cy: CyProgram, sites=None):
     t6(run, cy)
     t7(run, prog)
     t8(run, cy)
+    t9(run, prog)
